@@ -1,0 +1,56 @@
+//go:build verif
+
+package curve256k1
+
+import "github.com/shogo82148/goat/internal/curve256k1/field"
+
+// Hooks for the verification harness (build tag verif). Add-only; no behaviour change.
+
+// VerifCoords returns pointers to the Jacobian coordinates of p.
+func (p *PointJacobian) VerifCoords() (x, y, z *field.Element) { return &p.x, &p.y, &p.z }
+
+// VerifSetCoords sets the Jacobian coordinates of p verbatim.
+func (p *PointJacobian) VerifSetCoords(x, y, z *field.Element) *PointJacobian {
+	p.x, p.y, p.z = *x, *y, *z
+	return p
+}
+
+// VerifAffineCoords returns pointers to the affine coordinates of p.
+func (p *Point) VerifAffineCoords() (x, y *field.Element) { return &p.x, &p.y }
+
+// VerifNormalizeScalar exposes normalizeScalar.
+func VerifNormalizeScalar(k []byte) [32]byte { return normalizeScalar(k) }
+
+// VerifScalar is the 5-limb scalar accumulator state.
+type VerifScalar = [5]uint64
+
+func toScalar(v VerifScalar) *scalar   { return &scalar{v[0], v[1], v[2], v[3], v[4]} }
+func fromScalar(s *scalar) VerifScalar { return VerifScalar{s.l0, s.l1, s.l2, s.l3, s.l4} }
+
+// VerifScalarLsh8 exposes scalar.Lsh8.
+func VerifScalarLsh8(v VerifScalar) VerifScalar { var s scalar; return fromScalar(s.Lsh8(toScalar(v))) }
+
+// VerifScalarAdd8 exposes scalar.Add8.
+func VerifScalarAdd8(v VerifScalar, u uint8) VerifScalar {
+	var s scalar
+	return fromScalar(s.Add8(toScalar(v), u))
+}
+
+// VerifScalarReduce exposes scalar.reduce.
+func VerifScalarReduce(v VerifScalar) VerifScalar { return fromScalar(toScalar(v).reduce()) }
+
+// VerifScalarBytes exposes scalar.bytes.
+func VerifScalarBytes(v VerifScalar) [32]byte {
+	var buf [32]byte
+	toScalar(v).bytes(&buf)
+	return buf
+}
+
+// VerifLookupSelect builds the 15-entry lookup table of p and selects entry x (0..15).
+func VerifLookupSelect(p *PointJacobian, x uint8) *PointJacobian {
+	var t lookupTable
+	t.Init(p)
+	dest := new(PointJacobian)
+	t.SelectInto(dest, x)
+	return dest
+}
